@@ -3,7 +3,7 @@
 Invariant-at-a-hook monitor: the register allocator's event log (cfg(truth_verif) hook in
 stackless.rs::assign_registers) is checked online against the *generator's* ground truth of
 which registers the source mentions - not against truth's own bookkeeping."""
-import json
+import json, os
 from .. import core, testlang as TL, lowering as LW
 from ..gensrc import gen_body, Env, INT, FLOAT
 
@@ -65,12 +65,95 @@ def judge(ctx, cfg, body, req, resp, langtag, general_use=None, pool_sizes=None)
         ctx.fp(tuple(body.shape), langtag, cfg.tag() if cfg else '')
     ctx.sample({'lang': langtag, 'body': body.text[:500], 'events': evs[:12], 'compiled': ok}, cap=2)
 
+# parameter registers of old-ECL subs (game facts; written down independently of truth's tables):
+# EoSD passes one int in I0 and one float in F0; PCB..StB have four int + four float parameter registers
+ECL_PARAM_REGS = {'th06': ([-10001], [-10005]), 'th07': (list(range(10029, 10033)), list(range(10033, 10037))), 'th08': (list(range(10053, 10057)), list(range(10057, 10061))),
+                  'th09': (list(range(10053, 10057)), list(range(10057, 10061))), 'th095': (list(range(10036, 10040)), list(range(10040, 10044)))}
+
+def ecl_file_case(ctx, r):
+    """Whole old-ECL files through the real `truecl compile`: several subs with parameters that call each other, bodies that need
+    scratch registers, and the call-stack instruction that forbids scratch registers *in the whole file* in any one of the subs
+    (before or after the subs that need scratch).  Invariants over the allocator events of every sub: no allocated register is one of
+    the sub's parameter registers or mentioned in that sub; if the forbidding instruction is anywhere in the file and any sub needs a
+    scratch register, the compile must fail with a diagnostic."""
+    from .. import realenv
+    game = r.pick(sorted(ECL_PARAM_REGS))
+    gi, gf = realenv.ECL_GP[game]
+    pi, pf = ECL_PARAM_REGS[game]
+    nsubs = r.randint(2, 4)
+    anti_sub = r.randrange(nsubs) if r.chance(0.4) else None
+    subs, need_scratch_any, mentioned = [], False, []
+    for k in range(nsubs):
+        ni = r.randint(0, len(pi)); nf = r.randint(0, len(pf))
+        params = [('int', 'a%d' % j) for j in range(ni)] + [('float', 'x%d' % j) for j in range(nf)]
+        r.shuffle(params)
+        subs.append({'name': 'sub%d' % k, 'params': params})
+    text = ''
+    for k, sb in enumerate(subs):
+        L = []
+        ints = ['$REG[%d]' % g for g in r.sample(gi, 2)] + [n for t, n in sb['params'] if t == 'int']
+        flts = ['%%REG[%d]' % g for g in r.sample(gf, 2)] + [n for t, n in sb['params'] if t == 'float']
+        ment = set()
+        needs = False
+        for _ in range(r.randint(1, 4)):
+            kind = r.pick(['simple', 'pressure-int', 'pressure-float', 'local', 'call'])
+            if kind == 'simple': L.append('%s = %s + %d;' % (ints[0], r.pick(ints), r.randint(1, 9)))
+            elif kind == 'pressure-int': L.append('%s = (%s * 2) + (%s * 3) + (%s * 5);' % (ints[0], r.pick(ints), r.pick(ints), r.pick(ints))); needs = True
+            elif kind == 'pressure-float': L.append('%s = (%s * 2.0) + (%s * 3.0);' % (flts[0], r.pick(flts), r.pick(flts))); needs = True
+            elif kind == 'local': L.append('int loc%d = %s + 1;\n%s = loc%d * 2;' % (len(L), r.pick(ints), ints[0], len(L))); needs = True
+            else:
+                callee = r.pick(subs)
+                args = []
+                for t, _n in callee['params']:
+                    if game == 'th06': args.append(str(r.randint(0, 9)) if t == 'int' else '%d.5' % r.randint(0, 9))      # EoSD takes two immediates
+                    else: args.append(r.pick(ints + ['7']) if t == 'int' else r.pick(flts + ['1.5']))
+                L.append('%s(%s);' % (callee['name'], ', '.join(args)))
+        if anti_sub == k: L.insert(r.randint(0, len(L)), 'ins_%d(true);' % realenv.ECL_ANTI[game])
+        need_scratch_any |= needs
+        body = '\n'.join(L)
+        from ..lowering import REG_RE
+        mentioned.append({int(m) for m in REG_RE.findall(body)})
+        text += 'void %s(%s) {\n%s\n}\n' % (sb['name'], ', '.join('%s %s' % p for p in sb['params']), body)
+    text += 'script timeline0 {}\n'
+    src = ctx.write('c05.ecl', text); out = os.path.join(ctx.dir, 'c05.bin')
+    if os.path.exists(out): os.unlink(out)
+    c = ctx.cli({'tool': 'ecl', 'cmd': 'compile', 'game': game, 'in': src, 'out': out, 'want_reg_events': True})
+    ctx.evaluations += 1
+    replay = {'text': text, 'game': game, 'anti_scratch_in_sub': anti_sub}
+    if 'panic' in c or 'abort' in c: ctx.inconcl('compile crash (C04)'); return
+    ok = c.get('ok')
+    evs = c.get('reg_events') or []
+    nalloc = sum(1 for e in evs if e['ev'] == 'alloc')
+    if anti_sub is not None and ok and nalloc:
+        ctx.violation('scratch-clash:anti-scratch-ignored:file-global', 'sub%d contains ins_%d (no scratch registers in this file), yet the file compiled and %d registers were allocated' % (anti_sub, realenv.ECL_ANTI[game], nalloc), replay); return
+    if not ok:
+        if not core.has_error_diag(c.get('diag', '')): ctx.violation('scratch-clash:refusal-without-diagnostic', c.get('diag', '')[:200], replay)
+        elif anti_sub is not None and need_scratch_any: ctx.count('file_global_anti_scratch_refused')
+        else: ctx.count('ecl_files_rejected'); ctx.seen('ecl_file_reject_reasons', core.norm_msg(core.headline(c.get('diag', '')))[:70])
+        return
+    # per sub: the k-th pool event belongs to the k-th sub
+    k = -1
+    for e in evs:
+        if e['ev'] == 'pool': k += 1; continue
+        if e['ev'] != 'alloc' or not (0 <= k < nsubs): continue
+        reg = e['reg']
+        ni = sum(1 for t, _ in subs[k]['params'] if t == 'int'); nf = sum(1 for t, _ in subs[k]['params'] if t == 'float')
+        if reg in pi[:ni] + pf[:nf]:
+            ctx.violation('scratch-clash:alloc-param', 'sub%d: allocated register %d, which holds one of its parameters' % (k, reg), replay); return
+        if reg in mentioned[k]:
+            ctx.violation('scratch-clash:alloc-mentioned:ecl-file', 'sub%d: allocated register %d, which its source mentions' % (k, reg), replay); return
+        if reg not in gi + gf:
+            ctx.violation('scratch-clash:alloc-not-general', 'sub%d: allocated %d which is not general-purpose' % (k, reg), replay); return
+    ctx.count('ecl_files_compiled'); ctx.count('ecl_file_allocs', nalloc)
+    if nalloc: ctx.fp('eclfile', game, text)
+
 def run_shard(ctx):
     from .. import realenv
     n = SIZES[ctx.tier] // ctx.nshards + 1
     r = ctx.rng
     for i in range(n):
-        which = r.wpick([('tl', 5), ('anm', 2.5), ('ecl', 2.5)])
+        which = r.wpick([('tl', 5), ('anm', 2.5), ('ecl', 2.5), ('ecl-file', 1.2)])
+        if which == 'ecl-file': ecl_file_case(ctx, r); continue
         directed = r.chance(0.25)
         if which == 'tl':
             cfg = TL.Config(r, pools='any')
